@@ -245,6 +245,45 @@ def witness_badcond(run):
                       signature="witness:doc_pieces_counterexample", no_input=True)
 
 
+def witness_badcond_scala(run):
+    """Scala: `if ((x: Int) => true) 1 else 2` (theorems Scala.doc_pieces_counterexample /
+    Scala.balanced_counterexample: the real ScalaTranslator cuts `(x` off) and `if (new B()) 1 else 2` (`new` is
+    printed before the indentation: `ne` is cut off); model, code and the texts of the Lean examples must agree"""
+    pipeline.setup()
+    from src.translators.scala import ScalaTranslator
+    from src.ir import ast, scala_types as sc, types as tp
+    import export_ast
+    lam = ast.Lambda("l", [ast.ParameterDeclaration("x", sc.Integer)], None, ast.BooleanConstant("true"), None)
+    conds = [("lambda", ast.Conditional(lam, ast.IntegerConstant(1, None), ast.IntegerConstant(2, None), None),
+              "(if (: Int) => true) then\n  1\nelse\n  2)", False),
+             ("new", ast.Conditional(ast.New(tp.SimpleClassifier("B", []), []), ast.IntegerConstant(1, None),
+                                     ast.IntegerConstant(2, None), None),
+              "(if (w   B()) then\n  1\nelse\n  2)", True)]
+    res = {}
+    for name, cond, expect, balanced in conds:
+        tr = ScalaTranslator(None, {})
+        tr.visit(cond)
+        real = tr._children_res[-1]
+        e = export_ast.Exporter()
+        prog = {"lang": "scala", "decls": [e.node(cond)], "context": []}
+        prog["tt"] = e.tt.entries
+        a = common.run_driver([{"op": "trans.scala.doc", "program": prog, "package": None},
+                               {"op": "trans.scala.sem", "program": prog}])
+        for x in a:
+            if "error" in x:
+                raise common.HarnessError("driver: " + x["error"])
+        model = "".join(p[2] for p in a[0]["r"])
+        unb = cs.balance(cs.tokenize(real))
+        res[name] = {"real": real, "model": model, "condok": a[1]["r"]["condok"], "real_text_balanced": unb is None}
+        run.count({"witness": "Scala.doc_pieces_counterexample", "condition": name})
+        if real != model or real != expect or a[1]["r"]["condok"] or (unb is None) != balanced:
+            run.violation({"kind": "broken-correspondence", "witness": "Scala.doc_pieces_counterexample",
+                           "condition": name, "real": real, "model": model, "expected": expect,
+                           "note": "the witness of the counterexample theorems behaves differently on the real code"},
+                          signature="witness:Scala.doc_pieces_counterexample", no_input=True)
+    run.cov["witness_scala_doc_pieces_counterexample"] = res
+
+
 # ------------------------------------------------------------------ streams
 def run_stream(run, specs, found, label, budget_s=10 ** 6):
     import os
@@ -336,6 +375,8 @@ def check(run):
     init_cov(run)
     found = set()
     witness_badcond(run)
+    if "scala" in MODELS:
+        witness_badcond_scala(run)
     nprog, cap, budget = (40, 100, 110) if quick else (1000, 150, 1500)
     depths = [3, 4, 4, 5, 5, 6] if quick else [3, 4, 5, 5, 6, 6]   # depth 7 takes minutes per program on a loaded machine
     specs = make_specs(run.rng, nprog, cap, depths)
@@ -360,6 +401,10 @@ def check(run):
 def replay(run, rp):
     pipeline.setup()
     init_cov(run)
+    if rp.get("witness") == "Scala.doc_pieces_counterexample":
+        witness_badcond_scala(run)
+        run.cov["rule"] = "replay of the Scala counterexample witnesses"
+        return
     if rp.get("witness") == "doc_pieces_counterexample":
         witness_badcond(run)
         run.cov["rule"] = "replay of the counterexample witness"
